@@ -5,6 +5,7 @@ output line. Core-only (built as `lean_exe wiredrv`).
 import ThriftVerif.Wire.Text
 import ThriftVerif.Wire.Envelope
 import ThriftVerif.Wire.Cost
+import ThriftVerif.Proto.Mux
 
 open ThriftVerif.Wire
 
@@ -84,6 +85,14 @@ def step (line : String) : String :=
   | ["A", "env", hex] =>
     match bytesOfHex hex with
     | some bs => s!"ok {envelopeAlloc bs}"
+    | none => "bad-op"
+  | ["MUX"] => (match ThriftVerif.Proto.splitColon [] with | some _ => "some . ." | none => "none")  -- the empty name
+  | ["MUX", hex] =>
+    match bytesOfHex hex with
+    | some bs =>
+      match ThriftVerif.Proto.splitColon bs with
+      | some (svc, m) => s!"some {hexOfBytes svc}. {hexOfBytes m}."
+      | none => "none"
     | none => "bad-op"
   | ["A", "frameat", thr, hex] =>
     match thr.toNat?, bytesOfHex hex with
